@@ -319,7 +319,7 @@ def gen_session(prop: str, tier: str, seed: int) -> dict:
         for k in GAUGE_KINDS:
             if rng.chance(0.7):
                 enabled.append(k)
-        for k, p in (('RNGENV', 0.9), ('LAYOUT', 0.6), ('WPROT', 0.7), ('RAISE', 0.25 if profile in ('C19', 'C02', 'MIX') else 0.0)):
+        for k, p in (('RNGENV', 0.9), ('LAYOUT', 0.6), ('WPROT', 0.7), ('RAISE', 0.3 if profile in ('C19', 'C02', 'MIX') else 0.15)):
             if rng.chance(p):
                 enabled.append(k)
     cfg = {'world': 'tn', 'profile': profile, 'tier': tier, 'family': fam, 'd': d, 'qd': qd, 'L': L, 'Dmax': Dmax,
@@ -366,7 +366,7 @@ def gen_session(prop: str, tier: str, seed: int) -> dict:
     # ---- environment of every op -------------------------------------------------------------
     raise_used = False
     for op in ops:
-        env = {'gauge': rng.sub(), 'kinds': [], 'raise_at': None, 'layout': None, 'wprot': False}
+        env = {'gauge': rng.sub(), 'kinds': [], 'raise_at': None, 'raise_on': 'any', 'layout': None, 'wprot': False}
         if not faultfree:
             if rng.chance(0.45):
                 env['kinds'] = [k for k in GAUGE_KINDS if k in enabled and rng.chance(0.6)]
@@ -374,8 +374,9 @@ def gen_session(prop: str, tier: str, seed: int) -> dict:
                 env['layout'] = rng.pick(['F', 'strided', 'ro', 'F'])
             if 'WPROT' in enabled and rng.chance(0.6):
                 env['wprot'] = True
-            if 'RAISE' in enabled and not raise_used and op['op'] in ('orthonormalize', 'compress', 'tdvp', 'dmrg', 'split_merge', 'from_vector') and rng.chance(0.35):
+            if 'RAISE' in enabled and not raise_used and op['op'] in ('orthonormalize', 'compress', 'tdvp', 'dmrg', 'split_merge', 'from_vector', 'kernel', 'tdvp_reverse') and rng.chance(0.35):
                 env['raise_at'] = rng.pick([0, 0, 1, 1, 2, 3, 5, 8])
+                env['raise_on'] = rng.pick(['any', 'svd', 'svd'])
                 raise_used = True
         op['env'] = env
     return {'world': 'tn', 'prop': prop, 'tier': tier, 'seed': seed, 'config': cfg, 'ops': ops}
